@@ -12,6 +12,8 @@ def sigLoc : Loc := ⟨.inp, 0, "partial_sigs"⟩
 
 def exA : Psbt := ⟨2, 1, 0, fun l => if l = sigLoc then .dict [(1, .bytes [1])] else dflt l⟩
 def exB : Psbt := ⟨2, 1, 0, fun l => if l = sigLoc then .dict [(2, .bytes [2])] else dflt l⟩
+/-- exA's copy with exB's signature added: a signer's answer to the request exA -/
+def exAB : Psbt := ⟨2, 1, 0, fun l => if l = sigLoc then .dict [(1, .bytes [1]), (2, .bytes [2])] else dflt l⟩
 
 theorem canon_dflt (l : Loc) : Canon (dflt l) := by
   unfold dflt
